@@ -267,9 +267,9 @@ end PPLV.Alloc
 namespace PPLV.Alloc
 
 /-- `Dense_Row::operator=(const Sparse_Row&)` with reallocation is clean when the allocation of `init` succeeds. -/
-theorem denseAssignSparse_clean_of_alloc {base L h} (m0 cap m : Nat) (t : Tracks base L [] h) (hc : cap ≠ 0)
+theorem denseAssignSparseAsWritten_clean_of_alloc {base L h} (m0 cap m : Nat) (t : Tracks base L [] h) (hc : cap ≠ 0)
     (hal : ∀ h1 : Heap, h1.cd = h.cd → h1.armed = h.armed → (h1.alloc).1 ≠ none) :
-    Clean L (denseAssignSparse (buildRow m0 cap h).1 m (buildRow m0 cap h).2) := by
+    Clean L (denseAssignSparseAsWritten (buildRow m0 cap h).1 m (buildRow m0 cap h).2) := by
   obtain ⟨v, es, ev, ees, t1, nd, hne, _⟩ := buildParts_spec m0 cap t hc
   have e : buildRow m0 cap h = ({ vec := some v, cap := cap, elems := es }, (takeN (min m0 cap) [] h.take.2).2) := by
     simp [buildRow, hc, ev, ees]
@@ -285,7 +285,7 @@ theorem denseAssignSparse_clean_of_alloc {base L h} (m0 cap m : Nat) (t : Tracks
   generalize hh0 : (takeN (min m0 cap) [] h.take.2).2 = h0 at t1
   have h0cd : h0.cd = h.cd ∧ h0.armed = h.armed := by
     rw [← hh0]; have := hcd (min m0 cap) [] h.take.2; simpa [Heap.take] using this
-  unfold denseAssignSparse
+  unfold denseAssignSparseAsWritten
   simp only
   -- after destroy() nothing is owned
   have t2 : Tracks base L [] ((h0.freeAll es.reverse).freeOpt (some v)) := by
@@ -301,5 +301,74 @@ theorem denseAssignSparse_clean_of_alloc {base L h} (m0 cap m : Nat) (t : Tracks
   · rename_i nv h2 ha
     obtain ⟨t3, _, _⟩ := t2.alloc_some ha
     exact finishGrow_clean [] nv m _ List.nodup_nil (by simp) (by simpa using t3)
+
+end PPLV.Alloc
+
+namespace PPLV.Alloc
+
+/-- Repaired `Dense_Row::operator=(const Sparse_Row&)` (copy aside, then swap): clean for every
+fault position and every shape of the two rows. -/
+theorem denseAssignSparse_clean {base L h} (m0 cap m : Nat) (t : Tracks base L [] h) :
+    Clean L (denseAssignSparse (buildRow m0 cap h).1 m (buildRow m0 cap h).2) := by
+  -- the receiver: nothing, or a vector plus distinct coefficients; destroying it releases exactly its blocks `X`
+  have hr : ∃ (r : DRow) (X : List Nat) (h0 : Heap), buildRow m0 cap h = (r, h0) ∧ Tracks base L X h0 ∧
+      (∀ (Y : List Nat) (g : Heap), (∀ b ∈ X, b ∉ Y) → Tracks base L (X ++ Y) g → Tracks base L Y (drowDestroy r g)) := by
+    by_cases hc : cap = 0
+    · refine ⟨DRow.empty, [], h, by simp [buildRow, hc], t, ?_⟩
+      intro Y g _ tg; simpa [drowDestroy, DRow.empty, Heap.freeAll, Heap.freeOpt] using tg
+    · obtain ⟨v, es, ev, ees, t1, nd, hne, _⟩ := buildParts_spec m0 cap t hc
+      refine ⟨{ vec := some v, cap := cap, elems := es }, es ++ [v], _, by simp [buildRow, hc, ev, ees], t1, ?_⟩
+      intro Y g hdis tg
+      refine drowDestroy_some (X := Y) (tg.congr (by intro b; simp [List.append_assoc])) nd ?_ ?_
+      · intro b hb; exact ⟨hne b hb, hdis b (by simp [hb])⟩
+      · exact hdis v (by simp)
+  obtain ⟨r, X, h0, e, t1, hdestroy⟩ := hr
+  rw [e]
+  unfold denseAssignSparse
+  simp only
+  split
+  · rename_i h1 ha
+    exact Clean.of (hdestroy [] _ (by simp) (by simpa using t1.alloc_none ha)) _ _
+  · rename_i v h1 ha
+    obtain ⟨t2, hv, _⟩ := t1.alloc_some ha
+    split
+    · rename_i tmp h2 hl
+      obtain ⟨new, e1, t3, nd, dis, _⟩ := growLoop_spec m _ _ h1 true tmp h2 t2 hl
+      subst e1
+      simp only [List.nil_append]
+      have t4 : Tracks base L X (drowDestroy { vec := some v, cap := m, elems := new } h2) := by
+        apply drowDestroy_some t3 nd _ hv
+        intro b hb
+        have := dis b hb
+        simp only [List.mem_cons, not_or] at this
+        exact ⟨this.1, this.2⟩
+      exact Clean.of (hdestroy [] _ (by simp) (by simpa using t4)) _ _
+    · rename_i tmp h2 hl
+      obtain ⟨new, e1, t3, nd, dis, _⟩ := growLoop_spec m _ _ h1 false tmp h2 t2 hl
+      subst e1
+      simp only [List.nil_append]
+      -- the old contents go first (the local that received them in the swap), the new row later
+      have t4 : Tracks base L (new ++ [v]) (drowDestroy r h2) := by
+        apply hdestroy (new ++ [v]) h2
+        · intro b hb hm
+          rcases List.mem_append.mp hm with h3 | h3
+          · exact (dis b h3) (List.mem_cons_of_mem _ hb)
+          · simp at h3; subst h3; exact hv hb
+        · refine t3.congr ?_
+          intro b; simp only [List.mem_append, List.mem_cons, List.not_mem_nil, or_false]
+          constructor
+          · rintro (h3 | h3 | h3)
+            · exact Or.inr (Or.inl h3)
+            · exact Or.inr (Or.inr h3)
+            · exact Or.inl h3
+          · rintro (h3 | h3 | h3)
+            · exact Or.inr (Or.inr h3)
+            · exact Or.inl h3
+            · exact Or.inr (Or.inl h3)
+      refine Clean.of (drowDestroy_some (X := []) t4 nd ?_ (by simp)) _ _
+      intro b hb
+      have := dis b hb
+      simp only [List.mem_cons, not_or] at this
+      exact ⟨this.1, by simp⟩
 
 end PPLV.Alloc
